@@ -434,6 +434,37 @@ theorem signed_then_nil {cs : List (Nat × Nat)} (X : Re) (hns : noStart ((48, 5
   rw [this]
   exact ms_nil_of_headIn hns hnn (num_heads (d :: ds) stop hd hs (1 + k) hle)
 
+/-- IDENT / FUNCTION do not start at a sign that is followed by a digit -/
+theorem noname_signed (sg : Nat) (hsg : sg = 43 ∨ sg = 45) (d : Nat) (t : Cps) (hd0 : isDigit d = true) (Y : Re) :
+    (Re.seq dashOpt (Re.seq nmstartRe Y)).ms (sg :: d :: t) = [] := by
+  have hcc : inR [(43, 43), (45, 45)] sg = true := by rcases hsg with rfl | rfl <;> decide
+  have hdd : inR [(48, 57)] d = true := by simpa [inR, isDigit] using hd0
+  apply seq_ms_nil
+  intro l hl
+  have hl' : l = 0 ∨ l = 1 := by
+    rcases hsg with rfl | rfl
+    · have : dashOpt.ms (43 :: d :: t) = [0] := dashOpt_ms 43 _ (by decide)
+      rw [this] at hl; simp at hl; exact Or.inl hl
+    · have hd45 : d ≠ 45 := by
+        intro e; rw [e] at hd0; revert hd0; decide
+      have h1 : Re.inCls false [(45, 45)] d = false := by simp [inCls_single, hd45]
+      have h2 : Re.inCls false [(45, 45)] 45 = true := by decide
+      have : dashOpt.ms (45 :: d :: t) = [1, 0] := by
+        simp [dashOpt, Re.ms, Re.repMs, h1, h2]
+      rw [this] at hl; simp at hl; omega
+  rcases hl' with rfl | rfl
+  · rw [List.drop_zero]
+    exact seq_ms_nil_left (noStart_sound (cs := [(43, 43), (45, 45)]) (by decide) hcc _)
+  · rw [List.drop_one, List.tail_cons]
+    exact seq_ms_nil_left (noStart_sound (cs := [(48, 57)]) (by decide) hdd _)
+
+theorem numRe_first_signed {cs : List (Nat × Nat)} (sg : Nat) (hsg : sg = 43 ∨ sg = 45) (d : Nat) (ds stop : Cps)
+    (hd : ∀ c ∈ d :: ds, isDigit c = true) (hs : NumStop cs stop) :
+    numRe.first (sg :: (d :: ds ++ stop)) = some ((d :: ds).length + 1) := by
+  simp only [Re.first, numRe_ms_signed sg hsg d ds stop hd hs, List.head?_map, head_countdown, Option.map_some,
+    List.length_cons]
+  congr 1; omega
+
 /-- **signed NUMBER** `+1` / `-1`: a sign, ASCII digits, then the end of the text or a `numStops` code point -/
 theorem scan_signed_number (doC : Bool) (sg : Nat) (hsg : sg = 43 ∨ sg = 45) (d : Nat) (ds stop : Cps)
     (hd : ∀ c ∈ d :: ds, isDigit c = true) (hs : HeadIn (fun c => inR numStops c = true) stop) :
